@@ -1100,13 +1100,13 @@ pub fn history_strategy(cfg: HistCfg) -> BoxedStrategy<History> {
                         let n = keys.len();
                         (0..n).map(|j| Op::Del { k: ((j + rot) % n) as u32 }).collect()
                     };
-                    if cfg3.empty_mid && keys.len() <= 20000 {
+                    if cfg3.empty_mid && keys.len() <= 400 {
                         let at = ops.len() / 2;
                         let tail = ops.split_off(at);
                         ops.extend(del_all(&keys, at));
                         ops.extend(tail);
                     }
-                    if cfg3.empty_end && keys.len() <= 20000 {
+                    if cfg3.empty_end && keys.len() <= 400 {
                         let r = ops.len();
                         ops.extend(del_all(&keys, r));
                     }
